@@ -285,6 +285,42 @@ func runC02(c *runCtx) {
 			}
 		}
 	}
+	// the byte limit counts the bytes handed over, whatever they are: a byte-order mark, blanks or a comment in front, one
+	// long literal, one long comment, multi-byte characters, a final line end — just over the limit (+1 … +4) is refused
+	// with E1006, exactly at the limit is not refused for its size
+	sizeShapes := []struct {
+		name string
+		mk   func(n int) []byte
+	}{
+		{"byte-order-mark", func(n int) []byte { b := mk(n); copy(b, "\xef\xbb\xbfSELECT 1"); return b }},
+		{"leading-blanks", func(n int) []byte { b := mk(n); copy(b, "   \n\t SELECT 1"); return b }},
+		{"leading-comment", func(n int) []byte { b := mk(n); copy(b, "/* c */ SELECT 1"); return b }},
+		{"one-literal", func(n int) []byte { return []byte("SELECT '" + strings.Repeat("x", n-9) + "'") }},
+		{"one-comment", func(n int) []byte { return []byte("SELECT 1 --" + strings.Repeat("c", n-11)) }},
+		{"multi-byte", func(n int) []byte {
+			return []byte("SELECT '" + strings.Repeat("é", (n-9)/2) + strings.Repeat("x", (n-9)%2) + "'")
+		}},
+		{"final-newline", func(n int) []byte { b := mk(n); b[n-1] = '\n'; return b }},
+		{"nul-bytes", func(n int) []byte { b := mk(n); b[n-2], b[n-1] = 0, 0; return b }},
+	}
+	for _, sh := range sizeShapes {
+		for _, ep := range []string{"tokenize", "tokenizectx", "tokenize:pool", "parse", "validate"} {
+			for _, d := range []int{0, 1, 2, 3, 4} {
+				in := sh.mk(maxSize + d)
+				if len(in) != maxSize+d {
+					res.stat("size-shape-length-off")
+					continue
+				}
+				ans := pool.Run(ep, in, 120*time.Second)
+				res.count(fmt.Sprintf("size|%s|%s|%d", sh.name, ep, d), true)
+				if (d > 0) != (ans == "E1006") {
+					res.fail(fmt.Sprintf("size-limit:%s:%s", ep, sh.name), fmt.Sprintf("%s of %d bytes (limit%+d, %s) answered %s", ep, maxSize+d, d, sh.name, ans),
+						map[string]any{"entry": ep, "bytes": maxSize + d, "shape": sh.name}, nil)
+					break
+				}
+			}
+		}
+	}
 	// token-count limit: `n` one-character tokens
 	mkTok := func(n int) []byte {
 		// "1 " repeated: n NUMBER tokens, 2n bytes (fits: 2M < 10 MiB)
